@@ -201,17 +201,19 @@ func appendEvents(path string, events []Event) error {
 		return err
 	}
 	defer file.Close()
+	// One write for the whole batch: a command's events reach the log
+	// together, so a process killed between system calls cannot leave a
+	// multi-event command (e.g. claim + state) half recorded.
+	var batch []byte
 	for _, event := range events {
 		data, err := json.Marshal(event)
 		if err != nil {
 			return err
 		}
-		line := append(data, '\n')
-		if err := writeAll(file, line); err != nil {
-			return err
-		}
+		batch = append(batch, data...)
+		batch = append(batch, '\n')
 	}
-	return nil
+	return writeAll(file, batch)
 }
 
 func writeEventsFile(path string, events []Event) error {
